@@ -164,7 +164,13 @@ fn pre(_e: &hook::Event) {
         LOG.lock();
     }
 }
+/// number of modifying operations (anything but a load or a fence) performed on reference counts so far
+pub static COUNT_WRITES: std::sync::atomic::AtomicUsize = std::sync::atomic::AtomicUsize::new(0);
+
 fn post(e: &hook::Event, seen: usize) {
+    if !matches!(e.op, hook::Op::Load | hook::Op::Fence) {
+        COUNT_WRITES.fetch_add(1, O::Relaxed);
+    }
     let ev = Ev::Atomic {
         cell: e.cell as usize,
         op: op_code(e.op),
